@@ -123,7 +123,36 @@ pub fn install_quiet_panic_hook() {
             .map(|l| format!("{}:{}", l.file(), l.line()))
             .unwrap_or_default();
         LAST_PANIC.with(|p| *p.borrow_mut() = Some(format!("{msg} @ {loc}")));
+        if let Ok(mut g) = LAST_PANIC_ANYWHERE.lock() {
+            *g = Some(format!("{msg} @ {loc}"));
+        }
     }));
+}
+
+static LAST_PANIC_ANYWHERE: std::sync::Mutex<Option<String>> = std::sync::Mutex::new(None);
+
+/// Last resort of a check's `main`: a panic that no scenario caught. A harness error (message starts
+/// with MACHINERY) is exit 2; anything else is a panic of the code under test and therefore a
+/// violation (exit 1 with the VIOLATION line and a replay file that holds the message).
+pub fn guard_main(property: &str, f: impl FnOnce() -> i32) -> i32 {
+    match std::panic::catch_unwind(std::panic::AssertUnwindSafe(f)) {
+        Ok(code) => code,
+        Err(_) => {
+            let msg = LAST_PANIC_ANYWHERE.lock().ok().and_then(|g| g.clone()).unwrap_or_else(|| "panic".to_owned());
+            if msg.starts_with("MACHINERY") {
+                eprintln!("{msg}");
+                return 2;
+            }
+            let dir = std::env::var("VERIF_REPLAY_DIR").unwrap_or_else(|_| format!("{}/replays", std::env::var("VERIF_DIR").unwrap_or_else(|_| "/verif".into())));
+            let dir = format!("{dir}/{property}");
+            std::fs::create_dir_all(&dir).ok();
+            let path = format!("{dir}/violation-uncaught-panic.json");
+            std::fs::write(&path, serde_json::json!({"kind": "violation", "property": property, "what": format!("panic in the code under test: {msg}")}).to_string()).ok();
+            println!("VIOLATION property={property} replay={path}");
+            println!("  what: panic in the code under test (not caught by a scenario): {msg}");
+            1
+        }
+    }
 }
 
 pub fn take_last_panic() -> Option<String> {
